@@ -198,6 +198,35 @@ pub fn compress_lib_failing(spec: &CompressSpec, source: Arc<Vec<u8>>, temp_over
     };
     let mut input = SimSource::drawn(source);
     input.fail_at = fail_at.map(|n| (n, std::io::ErrorKind::Other));
+    // one library compression in three writes to a (facade) tokio::fs::File, the writer most
+    // callers pass. What counts is the file as another process finds it at the moment
+    // create_archive returns: a write still on its way to the blocking pool is not in it
+    if temp_override.is_none() && simkit::chance(1, 3) {
+        simkit::count("probe:lib-compress-into-tokio-file");
+        quiet(|| {
+            let _ = std::fs::remove_file("lib.cba");
+        });
+        let r = run_async(async move {
+            let mut out = match tokio::fs::File::create("lib.cba").await {
+                Ok(f) => f,
+                Err(e) => return (Err(format!("create lib.cba: {}", e)), Vec::new()),
+            };
+            let res = create_archive(input, &mut out, &options).await.map(|_| ()).map_err(|e| {
+                use std::error::Error;
+                format!("{} <- {}", e, e.source().map(|s| s.to_string()).unwrap_or_default())
+            });
+            let seen = std::fs::read("lib.cba").unwrap_or_default();
+            drop(out);
+            (res, seen)
+        });
+        return match r {
+            Ok(End::Done((res, seen))) => LibCompress { outcome: outcome_of(Ok(End::Done(res))), archive: seen },
+            Ok(End::StepBudget) => LibCompress { outcome: Outcome::StepBudget, archive: Vec::new() },
+            Ok(End::Deadlock) => LibCompress { outcome: Outcome::Deadlock, archive: Vec::new() },
+            Ok(End::Crashed) => LibCompress { outcome: Outcome::Crashed, archive: Vec::new() },
+            Err(p) => LibCompress { outcome: Outcome::Panic(p), archive: Vec::new() },
+        };
+    }
     let sink = SimSink::drawn();
     let sink2 = sink.clone();
     let r = run_async(async move {
